@@ -122,6 +122,15 @@ func (f *FnVC) run() {
 		}
 		f.cover(fmt.Sprintf("loop %d body completes an iteration", li.ord), sOr(es...))
 	}
+	if f.c != nil {
+		for i, h := range f.c.Hints {
+			if !f.hintSeen[i] {
+				f.cur = nil
+				o := f.oblige("hint", "at \""+h.Where+"\": the anchor text occurs in the function", "false", token.NoPos)
+				o.Status, o.Output = "failed", "no statement of the function contains this text (the clause was not applied)"
+			}
+		}
+	}
 	for i := 0; i < 3; i++ {
 		f.finishLoops()
 	}
@@ -1618,7 +1627,7 @@ func (f *FnVC) hintPoints(b *ssa.BasicBlock) map[ssa.Instruction][]HintClause {
 	if f.c == nil || len(f.c.Hints) == 0 {
 		return out
 	}
-	for _, h := range f.c.Hints {
+	for hi, h := range f.c.Hints {
 		var last ssa.Instruction
 		for _, ins := range b.Instrs {
 			if _, isDbg := ins.(*ssa.DebugRef); isDbg {
@@ -1633,6 +1642,10 @@ func (f *FnVC) hintPoints(b *ssa.BasicBlock) map[ssa.Instruction][]HintClause {
 		}
 		if last != nil {
 			out[last] = append(out[last], h)
+			if f.hintSeen == nil {
+				f.hintSeen = map[int]bool{}
+			}
+			f.hintSeen[hi] = true
 		}
 	}
 	return out
